@@ -302,7 +302,7 @@ def write_evidence(prop: str, tier: str, seed: int, level: str, acc: Acc,
         'violations': int(n_violations),
     }
     d = OUT / 'evidence'
-    d.mkdir(exist_ok=True)
+    d.mkdir(parents=True, exist_ok=True)
     p = d / f'{prop}.json'
     tmp = p.with_suffix('.json.tmp')
     tmp.write_text(json.dumps(ev, indent=1, sort_keys=True, default=str) + '\n')
